@@ -466,11 +466,11 @@ def _slice_helper_arg(e):
                         if y[0] == 'star':
                             src = _iter_src(strip(y[1]))
                             encs = [z for z in sym.walk(y[2]) if z[0] == 'enc']
+                            idx = _indexed_loop(y)
+                            if idx is not None and len(encs) == 1:
+                                # `for i in 0..slice.len() { slice[i].encode_to(dest) }` (or its while spelling)
+                                return idx, encs[0][1]
                             if src == ('loop',):
-                                # `while i < slice.len() { slice[i].encode_to(dest); i += 1 }`
-                                idx = _indexed_loop(y)
-                                if idx is not None and len(encs) == 1:
-                                    return idx, encs[0][1]
                                 continue
                             if len(encs) == 1:
                                 return src, encs[0][1]
@@ -478,35 +478,29 @@ def _slice_helper_arg(e):
 
 
 def _indexed_loop(star):
-    """for a counter loop `i = 0; while i < len(X) { .. X[i] ..; i += 1 }` return X"""
-    its_ = items(star[2])
-    alts = [x for x in its_ if x[0] == 'alt']
-    if len(alts) != 1 or len(its_) != 1 or not (isinstance(alts[0][1], tuple) and alts[0][1][0] == 'if'):
+    """for an index loop `for i in 0..len(X) { .. X[i] .. }` (sym canonicalises the `while i < len(X)` counter
+    spelling to the same term) return X"""
+    src = strip(star[1])
+    if not (isinstance(src, tuple) and src[0] == 'adt' and src[1].endswith('ops::range::Range')):
         return None
-    c = strip(alts[0][1][1])
-    arms = dict(alts[0][2])
-    if not (isinstance(c, tuple) and c[0] == 'bin' and c[1] == 'Lt' and isinstance(strip(c[2]), tuple) and strip(c[2])[0] == 'mutvar'):
-        return None
-    ctr = strip(c[2])
-    bound = strip(c[3])
-    init = strip(ctr[3])
-    if not (isinstance(init, tuple) and init[0] == 'lit' and init[1] == 0):
+    lo = strip([v for i_, v in src[3] if i_ == 0][0])
+    bound = strip([v for i_, v in src[3] if i_ == 1][0])
+    if not (isinstance(lo, tuple) and lo[0] == 'lit' and lo[1] == 0):
         return None
     if not (isinstance(bound, tuple) and bound[0] == 'call' and bound[1] == 'len'):
         return None
     X = strip(bound[3][0])
-    body = arms.get('true')
-    if body is None or arms.get('false') not in (['eps'], None):
-        return None
-    sets = [x for x in sym.walk(body) if x[0] == 'SET' and strip(x[1])[:2] == ctr[:2]]
-    if len(sets) != 1 or sets[0][3] != 'AddAssign' or not sym.vstr(sets[0][2]).startswith('1:'):
-        return None
+    body = star[2]
     encs = [z for z in sym.walk(body) if z[0] == 'enc']
     if len(encs) != 1:
         return None
     op = strip(encs[0][2])
-    okop = isinstance(op, tuple) and ((op[0] == 'index' and sym.vstr(op[1]) == sym.vstr(X) and strip(op[2])[:2] == ctr[:2]) or
-                                      (op[0] == 'call' and op[1] == 'index' and sym.vstr(op[3][0]) == sym.vstr(X) and strip(op[3][1])[:2] == ctr[:2]))
+
+    def is_idx(v):
+        v = strip(v)
+        return isinstance(v, tuple) and v[0] == 'elem' and sym.vstr(v[1]) == sym.vstr(src)
+    okop = isinstance(op, tuple) and ((op[0] == 'index' and sym.vstr(op[1]) == sym.vstr(X) and is_idx(op[2])) or
+                                      (op[0] == 'call' and op[1] == 'index' and sym.vstr(op[3][0]) == sym.vstr(X) and is_idx(op[3][1])))
     return X if okop else None
 
 
